@@ -1,10 +1,11 @@
 (* Properties/C08.v — betweenness counts exactly the shortest paths through each node and connection.
    Only statements; every proof is `exact <lemma of Proofs/Between*.v>`.
 
-   FULL STATEMENT (kept visible; see the _partial theorems below for what is proved of it). *)
+   FULL STATEMENT bc_correct — PROVED (C08_bc_correct: all four routines return BC_spec / EBC_spec). *)
 From Coq Require Import QArith List Arith ZArith Permutation Sorted.
 From BCT Require Import Base.Mat Base.SumQ Base.ListX Model.Between
-  Proofs.BetweenAccum Proofs.BetweenReady Proofs.BetweenQueue Proofs.BetweenSpec Proofs.BetweenBin Proofs.BetweenPaths.
+  Proofs.BetweenAccum Proofs.BetweenReady Proofs.BetweenQueue Proofs.BetweenSpec Proofs.BetweenBin Proofs.BetweenPaths
+  Proofs.BetweenTight Proofs.BetweenLast Proofs.BetweenCount Proofs.BetweenFull Proofs.BetweenBfs Proofs.BetweenPow Proofs.BetweenScale.
 Import ListNotations.
 Open Scope Q_scope.
 
@@ -23,7 +24,7 @@ Definition ebc_correct_bin : Prop := forall n G, binary n G ->
 (* the property's first sentence *)
 Definition bc_correct : Prop := bc_correct_bin /\ bc_correct_wei /\ ebc_correct_bin /\ ebc_correct_wei.
 (* "the node vector returned by the edge routines equals the node routines' result" for the binary pair
-   (two different algorithms; follows from bc_correct_bin /\ ebc_correct_bin, which are tested, not proved) *)
+   (two different algorithms; follows from bc_correct_bin /\ ebc_correct_bin: C08_ebc_node_vector_eq_bc_bin) *)
 Definition ebc_node_vector_eq_bc_bin : Prop := forall n G, binary n G ->
   match edge_betweenness_bin n G, betweenness_bin n G with
   | Some (_, BC), Some BC' => forall i, (i < n)%nat -> BC i == BC' i
@@ -124,42 +125,103 @@ Proof. exact queue_slots_b_full. Qed.
 (* ------------------------------------------------------------------------------------------ *)
 (* (5) path-counting phase                                                                      *)
 (* ------------------------------------------------------------------------------------------ *)
-(* full statement for the weighted search (NOT proved in full): distances, path counts and predecessor sets *)
+(* the specification side: the enumeration of ALL minimum-length walks u -> t decomposes by the last connection
+   (a permutation of duplicate-free lists), hence sigma(u,t) = [t = u] + sum over tight connections v -> t of sigma(u,v) *)
+Theorem C08_spec_last_connection : forall n G u t, nonneg_len n G -> (u < n)%nat -> (t < n)%nat ->
+  NoDup (spaths n G u t) /\
+  Permutation (spaths n G u t)
+    ((if Nat.eqb t u then [[u]] else []) ++
+     flat_map (fun v => if tightb n G u v t then map (fun q => q ++ [t]) (spaths n G u v) else []) (seq 0 n)).
+Proof. intros n G u t HG Hu Ht. split; [apply spaths_NoDup|exact (spaths_last_perm n G u t HG Hu Ht)]. Qed.
+
+Theorem C08_sigma_last_connection : forall n G u t, nonneg_len n G -> (u < n)%nat -> (t < n)%nat ->
+  sigma n G u t = ((if Nat.eqb t u then 1 else 0) + sumn (fun v => if tightb n G u v t then sigma n G u v else 0) n)%Z.
+Proof. exact sigma_last. Qed.
+
+(* weighted search (betweenness_wei / edge_betweenness_wei), FULL: distances, path counts and predecessor sets *)
 Definition search_correct_wei : Prop := forall n G u, (u < n)%nat -> nonneg_len n G ->
   exists st, source_w n G u = Some st /\
     (forall x, (x < n)%nat -> sD st x = dist_spec n G u x) /\
     (forall x, (x < n)%nat -> sNP st x = sigma n G u x) /\
     (forall w v, (w < n)%nat -> (v < n)%nat ->
        (sP st w v = true <-> edge G v w = true /\ exists dv, sD st v = Some dv /\ sD st w = Some (dv + G v w)%Z)).
-(* _partial: the first clause (D is exactly the minimum walk length, None exactly on unreachable nodes) and
-   NP >= 1 on every reachable node are proved; NP = sigma and the characterisation of P are missing. *)
-Theorem C08_search_wei_dist_partial : forall n G u, (u < n)%nat -> nonneg_len n G ->
-  exists st, source_w n G u = Some st /\
-    (forall x, (x < n)%nat -> match sD st x with Some d => is_dist n G u x d | None => ~ reachable n G u x end) /\
-    (forall x, (x < n)%nat -> sD st x = dist_spec n G u x) /\
-    (forall x, (x < n)%nat -> reachable n G u x -> (1 <= sNP st x)%Z).
-Proof. exact search_w_dist_partial. Qed.
+Theorem C08_search_wei_correct : search_correct_wei.
+Proof. exact search_w_correct. Qed.
+
+(* breadth-first search of edge_betweenness_bin, FULL: reached set, path counts and predecessor sets *)
+Definition search_correct_bin : Prop := forall n G u, (u < n)%nat -> binary n G ->
+  exists st, source_b n G u = Some st /\
+    (forall x, (x < n)%nat -> (sD st x <> None <-> reachable n G u x)) /\
+    (forall x, (x < n)%nat -> sNP st x = sigma n G u x) /\
+    (forall w v, (w < n)%nat -> (v < n)%nat ->
+       (sP st w v = true <-> edge G v w = true /\
+          exists dv, dist_spec n G u v = Some dv /\ dist_spec n G u w = Some (dv + 1)%Z)).
+Theorem C08_search_bin_correct : search_correct_bin.
+Proof. exact search_b_correct. Qed.
 
 (* ------------------------------------------------------------------------------------------ *)
-(* the routines as a whole: what is proved of bc_correct                                        *)
+(* the routines as a whole                                                                      *)
 (* ------------------------------------------------------------------------------------------ *)
-(* _partial: the routines never fail and return, for every node / connection, the sum over all sources of
-   the pair sums over the predecessor DAG (P, NP) built by their own search phase.  Missing for bc_correct:
-   that NP[t] = sigma(u,t) and that the P-paths are exactly the minimum-length walks (path-counting phase). *)
-Theorem C08_ebc_wei_pairsums_partial : forall n G, nonneg_len n G ->
-  exists EBC BC, edge_betweenness_wei n G = Some (EBC, BC) /\
-    (forall w, (w < n)%nat -> BC w == sumQ (fun u => dep_node n (source_w n G) u w) n) /\
-    (forall v w, (v < n)%nat -> (w < n)%nat -> EBC v w == sumQ (fun u => dep_edge n (source_w n G) u v w) n).
-Proof. exact ebc_wei_pairsums. Qed.
-Theorem C08_bc_wei_pairsums_partial : forall n G, nonneg_len n G ->
-  exists BC, betweenness_wei n G = Some BC /\
-    (forall w, (w < n)%nat -> BC w == sumQ (fun u => dep_node n (source_w n G) u w) n).
-Proof. exact bc_wei_pairsums. Qed.
-Theorem C08_ebc_bin_pairsums_partial : forall n G,
-  exists EBC BC, edge_betweenness_bin n G = Some (EBC, BC) /\
-    (forall w, (w < n)%nat -> BC w == sumQ (fun u => dep_node n (source_b n G) u w) n) /\
-    (forall v w, (v < n)%nat -> (w < n)%nat -> EBC v w == sumQ (fun u => dep_edge n (source_b n G) u v w) n).
-Proof. exact ebc_bin_pairsums. Qed.
+(* ANY routine of the Brandes shape (per-source search + dependency accumulation + sum over sources) whose search
+   leaves the queue in accumulation order, the tight connections as predecessor links and path counts obeying the
+   last-connection recurrence returns the specification's sums of fractions *)
+Theorem C08_pairsums_to_spec : forall n G (src : nat -> option sst), nonneg_len n G ->
+  (forall u, (u < n)%nat -> exists st, src u = Some st /\ acc_ready n u st /\ counts_ok n G u st) ->
+  (forall w, (w < n)%nat -> sumQ (fun u => dep_node n src u w) n == BC_spec n G w) /\
+  (forall v w, (v < n)%nat -> (w < n)%nat -> sumQ (fun u => dep_edge n src u v w) n == EBC_spec n G v w).
+Proof. exact pairsums_to_spec. Qed.
+
+Theorem C08_bc_wei_correct : bc_correct_wei.
+Proof. exact bc_wei_correct. Qed.
+Theorem C08_ebc_wei_correct : ebc_correct_wei.
+Proof. exact ebc_wei_correct. Qed.
+Theorem C08_ebc_bin_correct : ebc_correct_bin.
+Proof. exact ebc_bin_correct. Qed.
+
+(* betweenness_bin (matrix powers + back-propagation).  Matrix-power induction: the d-th power of a 0/1 matrix holds
+   sigma(i,j) wherever dist(i,j) = d and 0 wherever dist(i,j) > d or j is unreachable *)
+Theorem C08_matrix_power_counts : forall n G, binary n G -> forall dn i j, (i < n)%nat -> (j < n)%nat ->
+  ((dist_spec n G i j = None \/ exists e, dist_spec n G i j = Some e /\ (Z.of_nat dn < e)%Z) -> mpow n G dn i j = 0%Z) /\
+  (dist_spec n G i j = Some (Z.of_nat dn) -> mpow n G dn i j = sigma n G i j).
+Proof. exact pow_sigma. Qed.
+(* forward phase: `while np.any(NSPd)` ends within its fuel; then L (after L[L==0]=inf, L[I]=0) is the distance matrix and
+   NSP (after NSP[NSP==0]=1) the matrix of numbers of minimum-length walks; d-1 bounds every distance *)
+Theorem C08_bc_bin_forward : forall n G, binary n G ->
+  let G0 := tab 0%Z n n G in
+  exists dn NSP L,
+    bb_count (S n) n G0 1%Z G0 G0 (tab 0%Z n n (bb_init_diag G0)) (tab 0%Z n n (bb_init_diag G0)) = Some (Z.of_nat dn, NSP, L) /\
+    (1 <= dn)%nat /\
+    (forall i j e, (i < n)%nat -> (j < n)%nat -> dist_spec n G i j = Some e -> (e < Z.of_nat dn)%Z) /\
+    (forall i j, (i < n)%nat -> (j < n)%nat ->
+       tab None n n (bb_Lfin L) i j = dist_spec n G i j /\
+       tab 0%Z n n (bb_NSPfin NSP) i j = if isinf (dist_spec n G i j) then 1%Z else sigma n G i j).
+Proof. exact bb_forward_correct. Qed.
+(* back-propagation: pass d completes the dependencies of the nodes at distance d-1 (dlt = Brandes' delta over the tight
+   connections of source i) *)
+Theorem C08_bc_bin_back_pass : forall n G, binary n G -> forall (Lf : mat (option Z)) (NSPf : mat Z),
+  (forall i j, (i < n)%nat -> (j < n)%nat -> Lf i j = dist_spec n G i j) ->
+  (forall i j e, (i < n)%nat -> (j < n)%nat -> dist_spec n G i j = Some e -> NSPf i j = sigma n G i j) ->
+  forall d DP, (2 <= d)%Z -> InvB n G d DP -> InvB n G (d - 1) (bb_back n (tab 0%Z n n G) Lf NSPf DP d).
+Proof. exact back_pass. Qed.
+Theorem C08_bc_bin_correct : bc_correct_bin.
+Proof. exact bc_bin_correct. Qed.
+
+(* the property's first sentence, for all four routines *)
+Theorem C08_bc_correct : bc_correct.
+Proof. exact (conj bc_bin_correct (conj bc_wei_correct (conj ebc_bin_correct ebc_wei_correct))). Qed.
+
+(* (d) binary half of "edge node vector = node routine" *)
+Theorem C08_ebc_node_vector_eq_bc_bin : ebc_node_vector_eq_bc_bin.
+Proof. exact BetweenPow.ebc_node_vector_eq_bc_bin. Qed.
+
+(* on 0/1 matrices (lengths = the 0/1 entries) the weighted routines return what the binary routines return *)
+Theorem C08_wei_eq_bin_on_binary : forall n G, binary n G ->
+  (exists BCw BCb, betweenness_wei n G = Some BCw /\ betweenness_bin n G = Some BCb /\
+     forall v, (v < n)%nat -> BCw v == BCb v) /\
+  (exists Ew Bw Eb Bb, edge_betweenness_wei n G = Some (Ew, Bw) /\ edge_betweenness_bin n G = Some (Eb, Bb) /\
+     (forall v, (v < n)%nat -> Bw v == Bb v) /\
+     (forall x y, (x < n)%nat -> (y < n)%nat -> Ew x y == Eb x y)).
+Proof. exact wei_eq_bin_on_binary. Qed.
 
 (* (3) the node vector of edge_betweenness_wei IS the result of betweenness_wei (identical values, and the two
    fail together) *)
@@ -170,6 +232,19 @@ Theorem C08_ebc_node_vector_eq_bc_wei : forall n G,
   | _, _ => False
   end.
 Proof. exact ebc_node_vector_eq_bc_wei. Qed.
+
+(* scaling all lengths by a positive constant changes neither the specification nor what the weighted routines return
+   (the harness feeds dyadic lengths m * 2^-20 to the implementation and the numerators m to the model) *)
+Theorem C08_spec_scale_invariant : forall k G, (0 < k)%Z -> forall n,
+  (forall v, BC_spec n (scaleG k G) v == BC_spec n G v) /\
+  (forall x y, EBC_spec n (scaleG k G) x y == EBC_spec n G x y).
+Proof. exact spec_scale_invariant. Qed.
+Theorem C08_wei_scale_invariant : forall k G, (0 < k)%Z -> forall n, nonneg_len n G ->
+  (exists BC' BC, betweenness_wei n (scaleG k G) = Some BC' /\ betweenness_wei n G = Some BC /\
+     forall v, (v < n)%nat -> BC' v == BC v) /\
+  (exists E' B' E B, edge_betweenness_wei n (scaleG k G) = Some (E', B') /\ edge_betweenness_wei n G = Some (E, B) /\
+     (forall v, (v < n)%nat -> B' v == B v) /\ (forall x y, (x < n)%nat -> (y < n)%nat -> E' x y == E x y)).
+Proof. exact wei_scale_invariant. Qed.
 
 (* ------------------------------------------------------------------------------------------ *)
 (* non-vacuity: a diamond with a tie (two equal-length routes 0->1->3, 0->2->3) plus an unreachable node *)
@@ -182,6 +257,12 @@ Example C08_nonvacuous_output :
   option_map snd (run_ebc_wei diamond) = Some [0; 1#2; 1#2; 0; 0] /\
   option_map (fun r => match r with (q, qf, _, _, _) => (q, qf) end) (run_search true diamond 0) = Some ([4; 3; 2; 1; 0], 1)%nat.
 Proof. exact nonvacuous_output. Qed.
+(* a 0/1 matrix (4-cycle with a chord): all routines and the specification give [0; 1; 0; 1] *)
+Example C08_nonvacuous_binary : binary 4 (of_rows 0%Z bin_example) /\
+  run_bc_bin bin_example = Some [0; 1; 0; 1] /\ run_bc_wei bin_example = Some [0; 1; 0; 1] /\
+  option_map snd (run_ebc_bin bin_example) = Some [0; 1; 0; 1] /\
+  snd (fst (run_spec bin_example)) = [0; 1; 0; 1].
+Proof. exact bin_example_ok. Qed.
 
 Print Assumptions C08_spec_enumeration_faithful.
 Print Assumptions C08_dist_spec_correct.
@@ -193,8 +274,21 @@ Print Assumptions C08_brandes_accumulation_node.
 Print Assumptions C08_dag_counts_exist.
 Print Assumptions C08_queue_slots_wei.
 Print Assumptions C08_queue_slots_bin.
-Print Assumptions C08_search_wei_dist_partial.
-Print Assumptions C08_ebc_wei_pairsums_partial.
-Print Assumptions C08_bc_wei_pairsums_partial.
-Print Assumptions C08_ebc_bin_pairsums_partial.
+Print Assumptions C08_spec_last_connection.
+Print Assumptions C08_sigma_last_connection.
+Print Assumptions C08_search_wei_correct.
+Print Assumptions C08_search_bin_correct.
+Print Assumptions C08_pairsums_to_spec.
+Print Assumptions C08_bc_wei_correct.
+Print Assumptions C08_ebc_wei_correct.
+Print Assumptions C08_ebc_bin_correct.
+Print Assumptions C08_matrix_power_counts.
+Print Assumptions C08_bc_bin_forward.
+Print Assumptions C08_bc_bin_back_pass.
+Print Assumptions C08_bc_bin_correct.
+Print Assumptions C08_bc_correct.
+Print Assumptions C08_ebc_node_vector_eq_bc_bin.
+Print Assumptions C08_wei_eq_bin_on_binary.
+Print Assumptions C08_spec_scale_invariant.
+Print Assumptions C08_wei_scale_invariant.
 Print Assumptions C08_ebc_node_vector_eq_bc_wei.
